@@ -30,20 +30,19 @@ Definition unit_supported (S : list fact) (u : bytes * kind) : bool :=
 Definition coherent (S : list fact) : bool := forallb (unit_coherent S) (units crates S).
 Definition supported (S : list fact) : bool := forallb (unit_supported S) (units crates S).
 
-(* ---- known deviation classes (findings on the pinned tree), named by rule *)
+(* ---- known deviation class (finding on the pinned tree), named by rule *)
 Definition rule_id_eqb (r : rule) (u a f b g : bytes) : bool :=
   lbeq (r_unit r) u && lbeq (fst (r_if r)) a && lbeq (snd (r_if r)) f && lbeq (fst (r_then r)) b && lbeq (snd (r_then r)) g.
 
-(* gvariant_split: zvariant compiled without `gvariant` against a zvariant_utils that has `gvariant`
-   (Signature::Maybe / Format::GVariant are then not covered by zvariant's matches) *)
-Definition is_gvariant_split (r : rule) : bool :=
-  rule_id_eqb r (B "zvariant") (B "zvariant_utils") (B "gvariant") (B "zvariant") (B "gvariant").
+(* (the former class gvariant_split — zvariant compiled without `gvariant` against a zvariant_utils that has it — was
+   repaired in /repo by commit b1eb512d: zvariant's matches now have `#[cfg(not(feature = "gvariant"))]` catch-all arms, the
+   translator no longer emits the rule zvariant_utils/gvariant => zvariant/gvariant) *)
 (* blocking_split: zbus compiled without `blocking-api` while zbus_macros (host) has `blocking-api`
    (zbus's own #[proxy] items then name zbus::blocking, which does not exist) *)
 Definition is_blocking_split (r : rule) : bool :=
   rule_id_eqb r (B "zbus") (B "zbus_macros") (B "blocking-api") (B "zbus") (B "blocking-api").
 
-Definition Known_C35 (r : rule) : bool := is_gvariant_split r || is_blocking_split r.
+Definition Known_C35 (r : rule) : bool := is_blocking_split r.
 
 (* a unit is coherent up to the known classes *)
 Definition unit_coherent_mod (S : list fact) (u : bytes * kind) : bool :=
